@@ -21,6 +21,8 @@ import sys
 
 from . import common
 from . import c12_tables
+from . import c12_more
+from . import c12_cov
 
 PROPERTY = 'C12'
 LEAN_TARGETS = ['CpProofs.C12', 'drv_c12']
@@ -168,7 +170,31 @@ WSGI_SINKS = [
     ('sesspath', 7), ('sesspath2047', 5), ('reason', 9), ('redirect', 8), ('redirect2', 3), ('slashredir', 4),
     ('hostredir', 4), ('errmsg', 8), ('errreason', 4), ('errmsg_tb', 3), ('nf_path', 7), ('nf_raise', 3),
     ('reqline', 5), ('referer', 5), ('agent', 5), ('login', 5), ('multi', 6), ('errfail', 4), ('proxybase', 4),
+    # round 2: every further place where request-derived (or configuration) text reaches a header, a page or the log
+    ('xff', 5), ('xfproto', 3), ('resphdr', 3), ('allow', 3), ('autovary', 3), ('cdisp', 6), ('static', 4),
+    ('realm', 3), ('basiclogin', 5), ('sesscfg', 4), ('ckname', 2), ('errtpl', 5), ('errcall', 4), ('tb_exc', 5),
+    ('hostlog', 3),
 ]
+# how a request-header payload travels: as it is, or as an RFC 2047 encoded word whose DECODED text is the payload
+# (process_headers strips the raw value, then decodes: CR/LF/NUL inside the decoded text survive)
+VIAS = ['raw', 'raw', 'b', 'q', 'ql']
+VIA_SINKS = ('echo', 'sesspath', 'referer', 'agent', 'hostredir', 'proxybase', 'xff', 'xfproto', 'hostlog', 'static')
+# access-log formats (LogManager.access_log_format is configuration; the atoms i, z, o only appear in custom ones)
+LOG_FORMATS = [None, None, None,
+               '{h} {l} {u} {t} "{r}" {s} {b} "{f}" "{a}" {o}',
+               '{i} "{o}" {z} "{r}" "{u}"',
+               '{a}|{f}|{r}|{h}',
+               '{h} {l} {u} {z} "{r}" {s} {b} "{f}" "{a}" {o} {{x}}']
+STATIC_FILES = ['f.txt', 'f.svg', 'f.weird', 'F.HTML', 'noext', 'f.tar.gz', 'missing.txt']
+
+
+# custom error pages (configuration): templates filled by get_error_page's `template % kwargs`, and a callable
+CUSTOM_TEMPLATE_DEFAULT = ('<html><head><title>%(status)s</title></head><body><h1 class="e">%(status)s</h1>'
+                           '<div id="m">%(message)s</div><pre>%(traceback)s</pre><i>v%(version)s 100%%</i>'
+                           '</body></html>')
+CUSTOM_TEMPLATE_404 = ('<html><body><p>gone: %(message)s</p><p title="t">%(status)s</p>\r\n'
+                       '<pre class="tb">%(traceback)s</pre></body></html>\n')
+ERRCALL_TEMPLATE = '<html><body><h3>%(status)s</h3><p>%(message)s</p><pre>%(traceback)s</pre>%(version)s</body></html>'
 
 
 def to_wsgi_latin1(p):
@@ -178,6 +204,26 @@ def to_wsgi_latin1(p):
 
 def rfc2047_word(p):
     return '=?utf-8?b?%s?=' % base64.b64encode(p.encode('utf-8')).decode('ascii')
+
+
+def rfc2047_qword(p, charset='utf-8'):
+    """Q-encoded word: every octet outside [A-Za-z0-9] as =XX (so CR, LF, NUL, '?', '_', ' ' all travel)."""
+    raw = p.encode(charset)
+    return '=?%s?q?%s?=' % (charset, ''.join(chr(b) if (48 <= b <= 57 or 65 <= b <= 90 or 97 <= b <= 122)
+                                               else '=%02X' % b for b in raw))
+
+
+def enc_req(p, via):
+    """The octets (as the Latin-1 str a WSGI server hands over) that carry payload p in a request header."""
+    if has_surrogate(p):
+        return 'x' if via != 'raw' else to_wsgi_latin1(p)
+    if via == 'b':
+        return rfc2047_word(p)
+    if via == 'q':
+        return rfc2047_qword(p)
+    if via == 'ql' and all(ord(c) < 256 for c in p):
+        return rfc2047_qword(p, 'iso-8859-1')
+    return to_wsgi_latin1(p) if not all(ord(c) < 256 for c in p) else p
 
 
 def gen_case(rng):
@@ -196,6 +242,22 @@ def gen_case(rng):
         case['payload2'] = gen_payload(rng)
         case['attr'] = rng.choice(COOKIE_ATTRS)
         case['name'] = rng.choice(HEADER_NAMES)
+    if sink in VIA_SINKS:
+        case['via'] = rng.choice(VIAS)
+    if sink in ('resphdr',):
+        case['name'] = rng.choice(HEADER_NAMES)
+    if sink in ('errtpl', 'errcall'):
+        case['code'] = rng.choice([400, 401, 403, 404, 404, 405, 410, 418, 500, 503, 599])
+        case['tb'] = rng.random() < 0.4
+    if sink == 'cdisp':
+        case['disp'] = rng.choice(['attachment', 'inline', 'attachment', None])
+        case['range'] = rng.choice([None, None, 'bytes=0-1', 'bytes=2-', 'bytes=99-', 'bytes=0-1,3-4', 'p'])
+    if sink == 'static':
+        case['file'] = rng.choice(STATIC_FILES)
+    if sink == 'sesscfg':
+        case['field'] = rng.choice(['domain', 'path', 'name', 'domain'])
+    if sink in ('reqline', 'referer', 'agent', 'login', 'basiclogin', 'xff', 'hostlog', 'multi', 'hv', 'nf_path'):
+        case['fmt'] = rng.choice(LOG_FORMATS)
     return case
 
 
@@ -234,8 +296,22 @@ def _get_app():
                 resp.cookie[key][a] = av
         if plan.get('status') is not None:
             resp.status = plan['status']
+        for nm in plan.get('access', []):
+            req.headers.get(nm)                     # tools.autovary records the names the handler looked at
+        if plan.get('basic_auth') is not None:
+            from cherrypy.lib import auth_basic
+            auth_basic.basic_auth(plan['basic_auth'], lambda realm, user, pw: True)
+        if plan.get('sessinit') is not None:
+            from cherrypy.lib import sessions
+            sessions.init(clean_freq=0, **plan['sessinit'])
+        if plan.get('serve') is not None:
+            from cherrypy.lib import static
+            name, disp = plan['serve']
+            return static.serve_file(state['files']['dl'], 'application/x-download', disp, name)
         r = plan.get('raise')
         if r:
+            if r[0] == 'value':
+                raise ValueError(r[1])
             if r[0] == 'redirect':
                 exc = cherrypy.HTTPRedirect(r[1], r[2])
                 obs['redirect_urls'] = list(exc.urls)
@@ -278,7 +354,41 @@ def _get_app():
     def failing_error_page(**kwargs):
         raise ValueError(state['plan'].get('fail_text', ''))
 
+    def working_error_page(**kwargs):
+        # a custom error page as an application writes one: it trusts the values it is handed
+        state['obs']['errcall_kwargs'] = dict(kwargs)
+        return ERRCALL_TEMPLATE % kwargs
+
+    for nm in ('rh', 'al', 'av', 'et', 'et4', 'ec'):
+        setattr(Root, nm, cherrypy.expose(lambda self, *a, **kw: act()))
+    import atexit
+    import shutil
+    import tempfile
+    tmp = tempfile.mkdtemp(prefix='c12-')
+    atexit.register(shutil.rmtree, tmp, True)
+    files = {'dl': os.path.join(tmp, 'dl.bin'), 'static': os.path.join(tmp, 'static'),
+             'tpl_default': os.path.join(tmp, 'default.tpl'), 'tpl_404': os.path.join(tmp, '404.tpl')}
+    with open(files['dl'], 'wb') as f:
+        f.write(b'0123456789')
+    os.mkdir(files['static'])
+    for nm in STATIC_FILES[:-1]:
+        with open(os.path.join(files['static'], nm), 'wb') as f:
+            f.write(b'static-' + nm.encode())
+    for key, text in (('tpl_default', CUSTOM_TEMPLATE_DEFAULT), ('tpl_404', CUSTOM_TEMPLATE_404)):
+        with open(files[key], 'w', newline='') as f:
+            f.write(text)
+    state['files'] = files
+    state['rh'] = []            # tools.response_headers.headers (the list object the tool is handed; filled per case)
+    state['al'] = []            # tools.allow.methods
     conf = {
+        '/rh': {'tools.response_headers.on': True, 'tools.response_headers.headers': state['rh'],
+                'request.show_tracebacks': False},
+        '/al': {'tools.allow.on': True, 'tools.allow.methods': state['al'], 'request.show_tracebacks': False},
+        '/av': {'tools.autovary.on': True, 'request.show_tracebacks': False},
+        '/st': {'tools.staticdir.on': True, 'tools.staticdir.dir': files['static'], 'request.show_tracebacks': False},
+        '/et': {'error_page.default': files['tpl_default'], 'request.show_tracebacks': False},
+        '/et4': {'error_page.404': files['tpl_404'], 'request.show_tracebacks': True},
+        '/ec': {'error_page.default': working_error_page, 'request.show_tracebacks': False},
         '/': {'request.show_tracebacks': False},
         '/tb': {'request.show_tracebacks': True},
         '/sess': {'tools.sessions.on': True, 'tools.sessions.path_header': 'X-Path',
@@ -293,6 +403,8 @@ def _get_app():
     app.log.access_log.propagate = False
     app.log.error_log.propagate = False
     app.log.time = lambda: '[T]'          # the clock is not part of the property
+    from cherrypy import _cplogging
+    _cplogging.LazyRfc3339UtcTime = lambda: '[Z]'   # ... nor is the {z} clock of custom formats
     _APP.update(app=app, state=state, cap=cap, cherrypy=cherrypy)
     return _APP
 
@@ -301,6 +413,7 @@ def build_request(case):
     """Translate a case into (environ additions, path, query, plan)."""
     p = case['payload']
     sink = case['sink']
+    via = case.get('via', 'raw')
     env, plan, path, qs = {}, {}, '/p', ''
     if sink == 'hv':
         plan['headers'] = [[case['name'], p, 's']]
@@ -309,7 +422,7 @@ def build_request(case):
     elif sink == 'hn':
         plan['headers'] = [[p, 'v', 's']]
     elif sink == 'echo':
-        env['HTTP_X_IN'] = to_wsgi_latin1(p) if not all(ord(c) < 256 for c in p) else p
+        env['HTTP_X_IN'] = enc_req(p, via)
         plan['echo'] = [['X-In', 'X-Echo']]
     elif sink == 'echo2047':
         env['HTTP_X_IN'] = rfc2047_word(p) if not has_surrogate(p) else 'x'
@@ -320,7 +433,7 @@ def build_request(case):
         plan['cookies'] = [['k', 'v', {case['attr']: p}]]
     elif sink == 'sesspath':
         path = '/sess'
-        env['HTTP_X_PATH'] = to_wsgi_latin1(p) if not all(ord(c) < 256 for c in p) else p
+        env['HTTP_X_PATH'] = enc_req(p, via)
     elif sink == 'sesspath2047':
         path = '/sess'
         env['HTTP_X_PATH'] = rfc2047_word(p) if not has_surrogate(p) else '/x'
@@ -334,12 +447,12 @@ def build_request(case):
         path = '/sub'
         qs = to_wsgi_latin1(p)
     elif sink == 'hostredir':
-        env['HTTP_HOST'] = to_wsgi_latin1(p) if not all(ord(c) < 256 for c in p) else p
+        env['HTTP_HOST'] = enc_req(p, via)
         plan['raise'] = ['redirect', 'target', case.get('rstatus')]
     elif sink == 'proxybase':
         # tools.proxy copies X-Forwarded-Host into request.base WITHOUT SanitizedHost
         path = '/px'
-        env['HTTP_X_FORWARDED_HOST'] = to_wsgi_latin1(p) if not all(ord(c) < 256 for c in p) else p
+        env['HTTP_X_FORWARDED_HOST'] = enc_req(p, via)
         plan['raise'] = ['redirect', 'target?' + p[:8], case.get('rstatus')]
     elif sink == 'errmsg':
         plan['raise'] = ['error', case['code'], p]
@@ -360,9 +473,12 @@ def build_request(case):
         path = '/p/' + to_wsgi_latin1(p)
         qs = to_wsgi_latin1(p)
     elif sink == 'referer':
-        env['HTTP_REFERER'] = to_wsgi_latin1(p)
+        env['HTTP_REFERER'] = enc_req(p, via) if 'via' in case else to_wsgi_latin1(p)
     elif sink == 'agent':
-        env['HTTP_USER_AGENT'] = rfc2047_word(p) if (len(p) % 2 and not has_surrogate(p)) else to_wsgi_latin1(p)
+        if 'via' in case:
+            env['HTTP_USER_AGENT'] = enc_req(p, via)
+        else:
+            env['HTTP_USER_AGENT'] = rfc2047_word(p) if (len(p) % 2 and not has_surrogate(p)) else to_wsgi_latin1(p)
     elif sink == 'login':
         env['REMOTE_USER'] = p
     elif sink == 'multi':
@@ -372,6 +488,54 @@ def build_request(case):
         plan['status'] = '201 ' + p2
         env['HTTP_REFERER'] = to_wsgi_latin1(p)
         env['HTTP_USER_AGENT'] = to_wsgi_latin1(p2)
+    elif sink == 'xff':
+        # tools.proxy: X-Forwarded-For becomes request.remote.ip, i.e. the {h} atom of the access log
+        path = '/px'
+        env['HTTP_X_FORWARDED_FOR'] = enc_req(p, via)
+    elif sink == 'xfproto':
+        # tools.proxy: X-Forwarded-Proto becomes the scheme of request.base, i.e. of every absolute redirect
+        path = '/px'
+        env['HTTP_X_FORWARDED_PROTO'] = enc_req(p, via)
+        plan['raise'] = ['redirect', 'target', None]
+    elif sink == 'hostlog':
+        env['HTTP_HOST'] = enc_req(p, via)
+    elif sink == 'resphdr':
+        path = '/rh'
+        plan['rh'] = [[case['name'], p], ['X-Fixed', 'v']]
+    elif sink == 'allow':
+        path = '/al'
+        plan['al'] = ['GET', p]
+    elif sink == 'autovary':
+        path = '/av'
+        plan['access'] = [p, 'Accept-Language']
+    elif sink == 'cdisp':
+        plan['serve'] = [p, case.get('disp')]
+        if case.get('range') is not None:
+            env['HTTP_RANGE'] = to_wsgi_latin1(p) if case['range'] == 'p' else case['range']
+    elif sink == 'static':
+        path = '/st/' + case['file']
+        env['HTTP_RANGE'] = enc_req(p, via)
+    elif sink == 'realm':
+        plan['basic_auth'] = p
+    elif sink == 'basiclogin':
+        plan['basic_auth'] = 'r'
+        tok = (p + ':pw').encode('utf-8', 'surrogatepass')
+        env['HTTP_AUTHORIZATION'] = 'Basic ' + base64.b64encode(tok).decode('ascii')
+    elif sink == 'sesscfg':
+        f = case.get('field', 'domain')
+        plan['sessinit'] = {'name': 'sid', 'path': '/'}
+        plan['sessinit'][f] = p
+    elif sink == 'ckname':
+        plan['cookies'] = [[p, 'v', {}]]
+    elif sink == 'errtpl':
+        path = '/et4' if case.get('tb') else '/et'
+        plan['raise'] = ['error', case['code'], p]
+    elif sink == 'errcall':
+        path = '/ec'
+        plan['raise'] = ['error', case['code'], p]
+    elif sink == 'tb_exc':
+        path = '/tb'
+        plan['raise'] = ['value', p]
     else:
         raise common.HarnessError('unknown sink %r' % sink)
     return env, path, qs, plan
@@ -384,7 +548,14 @@ def run_wsgi(case):
     addenv, path, qs, plan = build_request(case)
     obs = {}
     A['state']['plan'], A['state']['obs'] = plan, obs
+    A['state']['rh'][:] = [tuple(x) for x in plan.get('rh', [])]
+    A['state']['al'][:] = list(plan.get('al', []))
     del A['cap'].records[:]
+    fmt = case.get('fmt')
+    if fmt is not None:
+        A['app'].log.access_log_format = fmt          # instance attribute, read as self.access_log_format
+    else:
+        A['app'].log.__dict__.pop('access_log_format', None)
     env = {'REQUEST_METHOD': 'GET', 'SCRIPT_NAME': '', 'PATH_INFO': path, 'QUERY_STRING': qs,
            'SERVER_PROTOCOL': case['proto'], 'SERVER_NAME': 'localhost', 'SERVER_PORT': '80',
            'wsgi.url_scheme': 'http', 'wsgi.input': io.BytesIO(b''), 'wsgi.errors': io.StringIO(),
@@ -416,7 +587,9 @@ def run_wsgi(case):
             'r': req.request_line,
             'f': dict.get(req.headers, 'Referer', ''), 'a': dict.get(req.headers, 'User-Agent', ''),
             'o': dict.get(req.headers, 'Host', '-'),
+            'i': str(req.unique_id), 'z': '[Z]',
         }
+        obs['atoms'] = {k: (v if isinstance(v, str) else str(v)) for k, v in obs['atoms'].items()}
         obs['version'] = cherrypy.__version__
         obs['raw_cl'] = dict.get(resp.headers, 'Content-Length', '')
     finally:
@@ -549,7 +722,25 @@ def text_after(pg, pred):
     return None
 
 
-def oracle_error_page(body, status_text, message, traceback_text=None):
+def shown_traceback(body):
+    """The text of the page's <pre> element as a browser would show it (None: no such element)."""
+    try:
+        pg = parse_page(body.rstrip(b' '))
+    except Exception:
+        return None
+    return text_after(pg, lambda t: t[1] == 'pre')
+
+
+def custom_template_for(case, st):
+    """The configured custom template that get_error_page fills for this case (None: the built-in one)."""
+    if case['sink'] != 'errtpl':
+        return None
+    if case.get('tb'):
+        return CUSTOM_TEMPLATE_404 if st == 404 else None       # '/et4' only configures error_page.404
+    return CUSTOM_TEMPLATE_DEFAULT
+
+
+def oracle_error_page(body, status_text, message, traceback_text=None, traceback_has=None):
     """The error page shows status/message/traceback only escaped: parsing the page gives the
     built-in tag skeleton and the texts come back verbatim."""
     bad = []
@@ -579,6 +770,13 @@ def oracle_error_page(body, status_text, message, traceback_text=None):
         if (got or '') != traceback_text:
             bad.append(('error page traceback %r does not read back as %r' % (got, traceback_text),
                         'error_page_text_not_escaped'))
+    if traceback_has:
+        # a traceback is shown and the exception text in it is request-derived: it reads back verbatim
+        # (how the traceback is laid out around it is not the property's business)
+        got = text_after(pg, lambda t: t[1] == 'pre') or ''
+        if 'Traceback' in got and traceback_has not in got:
+            bad.append(('the exception text %r does not read back verbatim from the traceback shown in the error '
+                        'page (%r)' % (traceback_has, got[-200:]), 'error_page_text_not_escaped'))
     return bad
 
 
@@ -704,6 +902,11 @@ def unH(s):
     return b'' if s == '-' else bytes.fromhex(s)
 
 
+def PIECES(ps):
+    """Template pieces [(is_field, text)] as one protocol token: l<T> literal, f<T> field, joined by '/'."""
+    return '/'.join(('f' if f else 'l') + T(t) for f, t in ps) or 'l-'
+
+
 def modelable(*texts):
     return not any(has_surrogate(t) for t in texts if isinstance(t, str))
 
@@ -752,14 +955,27 @@ def check_wsgi(ctx, case, obs, model_q):
         elif st >= 400 and case['sink'] == 'errfail':
             page_kind = 'error_custom_failed'
             bad += oracle_error_page_failed(obs['body'].rstrip(b' '), obs['src_status'], 'M&m', case['payload'])
+        elif st >= 400 and case['sink'] == 'errcall' and 'errcall_kwargs' in obs:
+            # a WORKING custom error page (callable): the page is the application's, not a built-in one; what
+            # CherryPy does is hand it escaped values - compared with the model, no clause of the statement
+            page_kind = 'error_custom_callable'
+        elif st >= 400 and case['sink'] == 'errtpl' and custom_template_for(case, st) is not None:
+            # a WORKING custom error template (configuration) filled by get_error_page: model comparison
+            page_kind = 'error_custom_template'
         elif st >= 400:
             page_kind = 'error'
             msg = expected_message(case, obs)
-            bad += oracle_error_page(obs['body'].rstrip(b' '), obs['src_status'], msg)
+            tbtext = None
+            if case['sink'] == 'tb_exc' and st == 500 and not has_surrogate(case['payload']):
+                # the traceback shown ends with the exception line; its text is request-derived
+                tbtext = case['payload']
+            bad += oracle_error_page(obs['body'].rstrip(b' '), obs['src_status'], msg, traceback_has=tbtext)
     ctx.count('page:%s' % page_kind)
     # log
     ctx.count('log_records:%d' % len(obs['log']))
-    bad += oracle_log(obs['log'], obs['atoms'])
+    fmt = case.get('fmt')
+    ctx.count('log_format:%s' % ('default' if fmt is None else 'custom'))
+    bad += oracle_log(obs['log'], obs['atoms'], None if fmt is None else fmt.count('"'))
     for what, sig in bad:
         ctx.oracle_fail(cj, 'sink %s: %s' % (case['sink'], what), sig)
     if bad:
@@ -786,10 +1002,27 @@ def check_wsgi(ctx, case, obs, model_q):
         model_q.append(('cookie %s' % T(m), None, ('h', len(exp)), cj))
         exp.append(None)
     model_q.append((None, pairs, ('hend', len(exp)), cj))
-    msg = expected_message(case, obs) if page_kind == 'error' else None
-    if page_kind == 'error' and case['sink'] != 'errmsg_tb' and msg is not None:
-        model_q.append(('errpage %s %s - %s' % (T(obs['src_status']), T(msg), T(obs['version'])),
-                        'ok ' + H(obs['body'].rstrip(b' ')), 'error page bytes', cj))
+    msg = expected_message(case, obs) if page_kind in ('error', 'error_custom_template') else None
+    if page_kind == 'error' and msg is not None:
+        # the traceback text is read back from the page itself (parsed, i.e. unescaped): the model must turn it
+        # into exactly the bytes that were sent, which it only does if the code escaped it the way the model does
+        tb = shown_traceback(obs['body'])
+        if tb is not None and modelable(tb):
+            model_q.append(('errpage %s %s %s %s' % (T(obs['src_status']), T(msg), T(tb), T(obs['version'])),
+                            'ok ' + H(obs['body'].rstrip(b' ')), 'error page bytes', cj))
+    if page_kind == 'error_custom_template' and msg is not None:
+        tpl = custom_template_for(case, st)
+        tb = shown_traceback(obs['body'])
+        if tb is not None and modelable(tb):
+            model_q.append(('errtpl %s %s %s %s %s' % (PIECES(c12_tables._pieces_percent(tpl)), T(obs['src_status']),
+                                                       T(msg), T(tb), T(obs['version'])),
+                            'ok ' + H(obs['body'].rstrip(b' ')), 'custom-template error page bytes', cj))
+    if page_kind == 'error_custom_callable':
+        kw = obs['errcall_kwargs']
+        want = {'status': obs['src_status'], 'message': expected_message(case, obs), 'version': obs['version']}
+        for k in sorted(want):
+            if want[k] is not None and isinstance(kw.get(k), str) and modelable(kw[k], want[k]):
+                model_q.append(('hesc %s' % T(want[k]), T(kw[k]), 'value handed to the custom error page (%s)' % k, cj))
     if page_kind == 'error_custom_failed':
         import traceback
         e = traceback.format_exception_only(ValueError, ValueError(case['payload']))[-1]
@@ -800,8 +1033,13 @@ def check_wsgi(ctx, case, obs, model_q):
                         'ok ' + H(obs['body']), 'redirect page bytes', cj))
     at = obs['atoms']
     if len(obs['log']) == 1:
-        model_q.append(('logline ' + ' '.join('%s=%s' % (k, T(at[k])) for k in 'hlutrsbfao'),
-                        'ok ' + T(obs['log'][0]), 'access-log line', cj))
+        if fmt is None:
+            model_q.append(('logline ' + ' '.join('%s=%s' % (k, T(at[k])) for k in 'hlutrsbfao'),
+                            'ok ' + T(obs['log'][0]), 'access-log line', cj))
+        else:
+            model_q.append(('loglinef %s ' % PIECES(c12_tables._pieces_format(fmt))
+                            + ' '.join('%s=%s' % (k, T(at[k])) for k in 'hlutrsbfaoiz'),
+                            'ok ' + T(obs['log'][0]), 'access-log line (custom format)', cj))
 
 
 def expected_message(case, obs):
@@ -812,8 +1050,10 @@ def expected_message(case, obs):
         return None                      # un-encodable text: the code answers with some other (500) page
     code = int(obs['status'][:3])
     default = httputil.valid_status(code)[2]
-    if sink in ('errmsg', 'errmsg_tb'):
+    if sink in ('errmsg', 'errmsg_tb', 'errtpl', 'errcall'):
         return case['payload'] or default
+    if sink == 'tb_exc' and code == 500:
+        return default
     if sink == 'errreason':
         return default
     if sink == 'nf_raise' and code == 404:
@@ -942,7 +1182,7 @@ def _fresh_serving():
     return req, resp
 
 
-UNIT_KINDS = ['item', 'item10', 'itemb', 'finalize', 'errpage', 'redir', 'log', 'host']
+UNIT_KINDS = ['item', 'item10', 'itemb', 'finalize', 'errpage', 'redir', 'log', 'host'] + c12_more.KINDS
 
 
 def run_unit(kind, p, aux=None):
@@ -1068,6 +1308,8 @@ def run_unit(kind, p, aux=None):
         if '\r' in out or '\n' in out:
             bad.append(('SanitizedHost(%r) = %r keeps CR/LF' % (p, out), 'sanitized_host_crlf'))
         q.append(('host %s' % T(p), T(out), 'SanitizedHost'))
+    elif kind in c12_more.KINDS:
+        return c12_more.run_unit_more(sys.modules[__name__], kind, p, aux)
     else:
         raise common.HarnessError('unknown unit kind %r' % kind)
     return q, bad
@@ -1098,12 +1340,16 @@ def run_unit_cases(ctx, cases, compare=True, register=True):
         for what, sig in bad:
             ctx.oracle_fail(case, 'unit %s: %s' % (kind, what), sig)
         if not bad and compare and modelable(p):
-            for line, expected, what in q:
-                pending.append((line, expected, what, case))
+            for item in q:
+                line, expected, what = item[:3]
+                pending.append((line, expected, what, case, item[3] if len(item) > 3 else None))
     if compare and pending:
         out = ctx.model([x[0] for x in pending])
         if out is not None:
-            for (line, expected, what, case), got in zip(pending, out):
+            for (line, expected, what, case, skip), got in zip(pending, out):
+                if skip is not None and got == skip:
+                    ctx.count('not_modelled:%s' % case['unit'])       # the model declares the input outside its scope
+                    continue
                 ctx.compared()
                 if got != expected:
                     ctx.disagree(case, expected[:2000], got[:2000], '%s differs' % what)
@@ -1125,6 +1371,8 @@ def gen_unit_cases(rng, n):
             aux = rng.choice([300, 301, 302, 303, 307, 308])
         elif kind == 'log':
             aux = rng.choice('rrffaauh')
+        elif kind in c12_more.KINDS:
+            aux = c12_more.gen_aux(sys.modules[__name__], rng, kind)
         out.append((kind, p, aux))
     return out
 
@@ -1146,8 +1394,9 @@ def systematic_unit_cases():
         out.append(('finalize', c + 'z', 'domain'))
     for s in SPECIALS:
         for kind in UNIT_KINDS:
-            out.append((kind, s, {'finalize': 'path', 'log': 'a'}.get(kind)))
-    return out
+            if kind not in c12_more.KINDS:
+                out.append((kind, s, {'finalize': 'path', 'log': 'a'}.get(kind)))
+    return out + c12_more.systematic(sys.modules[__name__])
 
 
 # ----------------------------------------------------------------------------------------------
@@ -1314,7 +1563,7 @@ def replay(ctx, case):
                 except ValueError:
                     return x
             return x
-        for line, expected, what in q:
+        for line, expected, what in [x[:3] for x in q]:
             print('impl   : %s = %s' % (what, show(expected)[:1500]))
             m = ctx.model([line]) if modelable(case['payload']) else None
             if m:
